@@ -356,6 +356,141 @@ def gen_document(rng):
     return d.render(), d.describe()
 
 
+# ------------------------------------------------------------------------------------------------- quoted tokens in every region
+# (C14) A sample line is a sequence of REGIONS; the scanners of both parsers (`_next_unquoted_char`, `parse_labels`,
+# the OpenMetrics sample-tail state machine) track quotes and backslashes in ALL of them, although the grammar allows a quoted
+# token only in the first three and in the exemplar labels.  `quoted_region_lines` puts a quoted token into each region in turn
+# (instead of / glued before / glued behind / as an extra word next to the region's own token); `open_quote_endings` then ends
+# the line at every position inside that token, followed by 0..3 backslashes (odd and even runs inside the open quote).
+REGIONS = ['name', 'label-name', 'label-value', 'value', 'timestamp', 'exemplar-label-name', 'exemplar-label-value',
+           'exemplar-value', 'exemplar-timestamp', 'trailing']
+# bodies in wire form (between the quotes): plain, escaped quote, escaped backslash, escaped newline, the separators every scanner looks for
+QUOTE_BODIES = ['', 'x', 'x\\"y', 'q\\\\', 'z\\n', '\\\\\\"', 'a b', ' # {t="q"} 1', '}', '{', ',', '=', '#', 'é', '\\', '1', '1.5']
+PLACEMENTS = ['instead', 'before', 'behind', 'word-before', 'word-behind']
+
+
+def _place(own, q, placement):
+    """(text before the quoted token, text after it) when q is placed relative to the region's own token"""
+    return {'instead': ('', ''), 'before': ('', own), 'behind': (own, ''), 'word-before': ('', ' ' + own),
+            'word-behind': (own + ' ', '')}[placement]
+
+
+def quoted_region_line(rng, region, placement, body=None):
+    """one sample line with a quoted token in `region`: returns (prefix, token, suffix); prefix + token + suffix is the line and
+    token == '"' + body + '"'.  The rest of the line is well formed (random choice of: legacy name or name in braces, labels,
+    timestamp, exemplar with / without labels and timestamp), so every scanner in front of the token is passed normally."""
+    body = rng.choice(QUOTE_BODIES) if body is None else body
+    q = '"' + body + '"'
+    after_ex = region.startswith('exemplar') or (region == 'trailing' and rng.random() < 0.6)
+    name = rng.choice(['a_total', 'a_total', 'a', 'g', 'a_bucket', ''])
+    lname, lval = rng.choice(['l', 'le', 'b_1', '"l.m"']), rng.choice(['v', 'c\\"d', '+Inf', 'x\\\\', ''])
+    with_labels = region in ('name', 'label-name', 'label-value') or not name or rng.random() < 0.5
+    value = rng.choice(['1', '1', '0.5', '+Inf', 'NaN'])
+    ts = rng.choice(['2', '1.5', '1e3']) if region == 'timestamp' or rng.random() < 0.5 else None
+    with_ex = after_ex or rng.random() < 0.3
+    exl = rng.choice([[('t', 'q')], [('t', 'q')], [], [('t', 'q\\\\'), ('"s.p"', 'a\\"b')]])
+    if region in ('exemplar-label-name', 'exemplar-label-value') and not exl:
+        exl = [('t', 'q')]
+    exv = rng.choice(['1', '0.5', '+Inf'])
+    ext = rng.choice(['3', '1.5', '1e3']) if region == 'exemplar-timestamp' or rng.random() < 0.5 else None
+    parts = []          # the line as (text, region or None)
+    if region == 'name':
+        b, a = _place(name or 'a', q, placement)
+        parts.append((b, None)); parts.append((q, 'Q')); parts.append((a, None))
+        if placement == 'instead' or rng.random() < 0.5:        # the grammatical place of a quoted name: first item in the braces
+            parts = [('{', None), (q, 'Q'), (rng.choice(['', ',l="v"']) + '}', None)]
+            with_labels = False
+    else:
+        parts.append((name, None))
+    if with_labels:
+        items = []
+        if not name and region != 'name':
+            items.append([('"a_total"', None)])
+        if region == 'label-name':
+            b, a = _place(lname, q, placement)
+            items.append([(b, None), (q, 'Q'), (a + '="' + lval + '"', None)])
+        elif region == 'label-value':
+            b, a = _place('"' + lval + '"', q, placement)
+            items.append([(lname + '=' + b, None), (q, 'Q'), (a, None)])
+        else:
+            items.append([(lname + '="' + lval + '"', None)])
+        if rng.random() < 0.4:
+            items.insert(rng.randrange(len(items) + 1), [('job="j"', None)])
+        parts.append(('{', None))
+        for i, it in enumerate(items):
+            if i:
+                parts.append((',', None))
+            parts += it
+        parts.append(('}', None))
+    parts.append((' ', None))
+    if region == 'value':
+        b, a = _place(value, q, placement)
+        parts += [(b, None), (q, 'Q'), (a, None)]
+    else:
+        parts.append((value, None))
+    if region == 'timestamp':
+        b, a = _place(ts, q, placement)
+        parts += [(' ' + b, None), (q, 'Q'), (a, None)]
+    elif ts is not None:
+        parts.append((' ' + ts, None))
+    if with_ex:
+        parts.append((' # {', None))
+        for i, (k, v) in enumerate(exl):
+            if i:
+                parts.append((',', None))
+            if i == 0 and region == 'exemplar-label-name':
+                b, a = _place(k, q, placement)
+                parts += [(b, None), (q, 'Q'), (a + '="' + v + '"', None)]
+            elif i == 0 and region == 'exemplar-label-value':
+                b, a = _place('"' + v + '"', q, placement)
+                parts += [(k + '=' + b, None), (q, 'Q'), (a, None)]
+            else:
+                parts.append((k + '="' + v + '"', None))
+        parts.append(('} ', None))
+        if region == 'exemplar-value':
+            b, a = _place(exv, q, placement)
+            parts += [(b, None), (q, 'Q'), (a, None)]
+        else:
+            parts.append((exv, None))
+        if region == 'exemplar-timestamp':
+            b, a = _place(ext, q, placement)
+            parts += [(' ' + b, None), (q, 'Q'), (a, None)]
+        elif ext is not None:
+            parts.append((' ' + ext, None))
+    if region == 'trailing':
+        sep = {'instead': ' ', 'before': ' ', 'behind': '', 'word-before': ' ', 'word-behind': '  '}[placement]
+        junk = {'instead': '', 'before': 'x', 'behind': '', 'word-before': ' 4', 'word-behind': ''}[placement]
+        parts += [(sep, None), (q, 'Q'), (junk, None)]
+    k = [i for i, p in enumerate(parts) if p[1] == 'Q'][0]
+    return ''.join(p[0] for p in parts[:k]), q, ''.join(p[0] for p in parts[k + 1:])
+
+
+def open_quote_endings(prefix, token, suffix, max_backslashes=3):
+    """the lines that END inside (or right behind) the quoted token: prefix + token[:k] + j backslashes for every k >= 1 and
+    j = 0..max (k = len(token): the closed token followed by a backslash run); and the lines where the token loses its closing
+    quote / gains a backslash in front of it while the rest of the line stays (the quote swallows the suffix)."""
+    out = []
+    for k in range(1, len(token) + 1):
+        for j in range(max_backslashes + 1):
+            out.append(('end-in-quote' if k < len(token) else 'end-behind-quote', prefix + token[:k] + '\\' * j))
+    out.append(('whole', prefix + token + suffix))
+    if suffix:
+        out.append(('unclosed', prefix + token[:-1] + suffix))
+        out.append(('unclosed', prefix + token[:-1] + '\\"' + suffix))
+        out.append(('unclosed', prefix + token[:-1] + '\\\\"' + suffix))
+    return out
+
+
+def quoted_region_lines(rng, per_region=1, regions=None):
+    """for every region × placement, `per_region` lines with their open-quote endings: yields (region, placement, kind, line)"""
+    for region in (regions or REGIONS):
+        for placement in PLACEMENTS:
+            for _ in range(per_region):
+                p, q, s = quoted_region_line(rng, region, placement)
+                for kind, line in open_quote_endings(p, q, s):
+                    yield region, placement, kind, line
+
+
 if __name__ == '__main__':
     import random
     import sys
